@@ -318,6 +318,7 @@ def build(recipe: dict):
             y = y.copy()
             y[np.random.default_rng(_seed("zeros", recipe["mid"], first, n)).choice(
                 np.arange(3, len(y) - 3), max(1, len(y) // 120), replace=False)] = 0.0
+        y_raw = y.copy()
         if role == "reporting":
             if fam == "daily":
                 y = _alter_observed(y, obs, ga, days)
@@ -327,7 +328,7 @@ def build(recipe: dict):
                 temp_h = _apply_tgap(temp_h, 24, gt)  # DST days are 23/25 h; close enough for gap placement
         temp_series = pd.Series(temp_h, index=hidx, name="tempF")
         if fam == "daily":
-            return _daily_ctor(recipe, days, y, temp_series, electric, obs)
+            return _daily_ctor(recipe, days, y, temp_series, electric, obs, y_raw)
         return _billing_ctor(recipe, days, y, temp_series, electric, obs, ga if role == "reporting" else None)
 
     # hourly families
@@ -358,6 +359,7 @@ def build(recipe: dict):
         y = y.copy()
         y[np.random.default_rng(_seed("zeros", recipe["mid"], first, n)).choice(
             np.arange(30, len(y) - 30), max(1, len(y) // 500), replace=False)] = 0.0
+    y_raw = y.copy()
     if role == "reporting":
         y = _alter_observed(y, obs, ga, hidx)
         if recipe.get("tgap") and len(temp_h) > 72:
@@ -375,10 +377,10 @@ def build(recipe: dict):
                 st = int(gt.integers(40, len(hidx) - 40))
                 keep[st:st + 4] = False
                 keep[:int(gt.integers(0, 7))] = False
-                hidx, y, temp_h = hidx[keep], y[keep], temp_h[keep]
+                hidx, y, temp_h, y_raw = hidx[keep], y[keep], temp_h[keep], y_raw[keep]
                 if ghi is not None:
                     ghi = ghi[keep]
-    return _hourly_ctor(recipe, hidx, y, temp_h, ghi, electric, obs)
+    return _hourly_ctor(recipe, hidx, y, temp_h, ghi, electric, obs, y_raw)
 
 
 def _build_grid(recipe):
@@ -408,7 +410,44 @@ def _build_grid(recipe):
                          days, y, temp_series, True, "present")
 
 
-def _daily_ctor(recipe, days, y, temp_series, electric, obs):
+def _with_resent(df, recipe, y_raw, obs):
+    """Recipe key `dup`: a feed that re-sends some timestamps.  The re-sent record follows the first one, carries
+    another temperature and a reading of its own (not blanked by a partial alteration; blank or absent when the whole
+    column is).  The library documents that the first record of a timestamp is the one that counts."""
+    if not recipe.get("dup") or len(df) < 6:
+        return df
+    n = len(df)
+    k = max(2, min(12, n // 20))
+    pos = np.sort(np.random.default_rng(_seed("dup", recipe["mid"], n)).choice(np.arange(1, n - 1), size=k, replace=False))
+    extra = df.iloc[pos].copy()
+    extra["temperature"] = extra["temperature"] + 4.0
+    if "observed" in df.columns:
+        extra["observed"] = np.nan if obs == "allnan" else np.asarray(y_raw)[pos] * {"scaled": 1.7, "raw": 1.0}.get(obs, 0.9)
+    return pd.concat([df, extra]).sort_index(kind="stable")
+
+
+def _feed(recipe, meter, temp):
+    """Other legal shapes of the two series a caller hands to from_series (recipe key `feed`): the weather feed in
+    UTC instead of the meter's zone, frames instead of series, columns already carrying the library's own names."""
+    f = int(recipe.get("feed") or 0)
+    if f == 0:
+        return meter, temp
+    if f in (1, 2):
+        temp = temp.tz_convert("UTC")
+    if f in (1, 3):
+        temp = temp.rename("temperature").to_frame()
+    elif f == 2:
+        temp = temp.rename("temperature")
+    if meter is not None:
+        if f == 1 and isinstance(meter, pd.DataFrame):
+            meter = meter.iloc[:, 0].rename("observed")
+        elif f == 2:
+            meter = (meter if isinstance(meter, pd.DataFrame) else meter.to_frame())
+            meter = meter.rename(columns={meter.columns[0]: "observed"})
+    return meter, temp
+
+
+def _daily_ctor(recipe, days, y, temp_series, electric, obs, y_raw=None):
     role = recipe["role"]
     cls = "DailyBaselineData" if role == "baseline" else "DailyReportingData"
     if recipe["entry"] == "series":
@@ -416,6 +455,7 @@ def _daily_ctor(recipe, days, y, temp_series, electric, obs):
             meter = None
         else:
             meter = pd.Series(y, index=days, name="value").to_frame()
+        meter, temp_series = _feed(recipe, meter, temp_series)
         kwargs = {"is_electricity_data": electric}
         inputs = [temp_series] if meter is None else [meter, temp_series]
         return dict(cls=cls, how="from_series", args=[meter, temp_series], kwargs=kwargs, inputs=inputs)
@@ -424,6 +464,7 @@ def _daily_ctor(recipe, days, y, temp_series, electric, obs):
     df = pd.DataFrame({"observed": y, "temperature": tday}, index=days)
     if obs == "absent":
         df = df.drop(columns=["observed"])
+    df = _with_resent(df, recipe, y if y_raw is None else y_raw, obs)
     if recipe["entry"] == "frame_col":
         df = df.rename_axis("datetime").reset_index()
     return dict(cls=cls, how="init", args=[df], kwargs={"is_electricity_data": electric}, inputs=[df])
@@ -453,6 +494,8 @@ def _billing_ctor(recipe, days, y, temp_series, electric, obs, ga=None):
     bill = recipe.get("bill", "monthly")
     if obs == "absent":
         kwargs = {"is_electricity_data": electric}
+        if recipe["entry"] == "series":
+            _m, temp_series = _feed(recipe, None, temp_series)
         return dict(cls=cls, how="from_series", args=[None, temp_series], kwargs=kwargs, inputs=[temp_series])
     idx, vals, _ = _bill_reads(days, y, bill, recipe["mid"])
     if ga is not None and obs not in ("raw", "absent"):
@@ -463,6 +506,7 @@ def _billing_ctor(recipe, days, y, temp_series, electric, obs, ga=None):
     vals = np.append(vals, np.nan)
     if recipe["entry"] == "series":
         meter = pd.Series(vals, index=idx, name="value").to_frame()
+        meter, temp_series = _feed(recipe, meter, temp_series)
         return dict(cls=cls, how="from_series", args=[meter, temp_series],
                     kwargs={"is_electricity_data": electric}, inputs=[meter, temp_series])
     # frame entry: hourly temperature frame with the bills placed on their start rows
@@ -472,7 +516,7 @@ def _billing_ctor(recipe, days, y, temp_series, electric, obs, ga=None):
     return dict(cls=cls, how="init", args=[df], kwargs={"is_electricity_data": electric}, inputs=[df])
 
 
-def _hourly_ctor(recipe, hidx, y, temp_h, ghi, electric, obs):
+def _hourly_ctor(recipe, hidx, y, temp_h, ghi, electric, obs, y_raw=None):
     role = recipe["role"]
     fam = recipe["fam"]
     if fam == "hourly":
@@ -487,6 +531,7 @@ def _hourly_ctor(recipe, hidx, y, temp_h, ghi, electric, obs):
             df["extra_cat"] = ((doy % 7) == 3).astype("int64")
         if obs == "absent":
             df = df.drop(columns=["observed"])
+        df = _with_resent(df, recipe, y if y_raw is None else y_raw, obs)
         if recipe["entry"] == "frame_col":
             df = df.rename_axis("datetime").reset_index()
         return dict(cls=cls, how="init", args=[df], kwargs={"is_electricity_data": electric}, inputs=[df])
@@ -496,6 +541,7 @@ def _hourly_ctor(recipe, hidx, y, temp_h, ghi, electric, obs):
         temp = pd.Series(temp_h, index=hidx, name="tempF")
         if role == "reporting" and meter is not None:
             meter = meter["value"]
+        meter, temp = _feed(recipe, meter, temp)
         inputs = [temp] if meter is None else [meter, temp]
         return dict(cls=cls, how="from_series", args=[meter, temp], kwargs={"is_electricity_data": electric},
                     inputs=inputs)
